@@ -691,6 +691,59 @@ func c17R6(ic *IC, r *Report, decls []*FuncInfo, okDecl *FuncInfo) {
 			return true
 		})
 	}
+	// (c) the three levels of a +build constraint (lines ANDed, options ORed, terms ANDed) are
+	// each iterated completely: every separator is the argument of a strings.Split (or Fields)
+	// whose result is ranged over; cutting once at the separator handles two elements only.
+	seps := map[string]string{`"\n"`: "lines of a comment group (AND)", `" "`: "space-separated options of a line (OR)", `","`: "comma-separated terms of an option (AND)"}
+	ranged := map[string]bool{}
+	cut := map[string]string{}
+	for _, fi := range decls {
+		ast.Inspect(fi.Decl.Body, func(n ast.Node) bool {
+			switch x := n.(type) {
+			case *ast.RangeStmt:
+				if c, ok := unparen(x.X).(*ast.CallExpr); ok && isCallTo(ic.Info, c, "strings.Split", "strings.SplitN") && len(c.Args) >= 2 {
+					if tv, ok := ic.Info.Types[c.Args[1]]; ok && tv.Value != nil {
+						ranged[tv.Value.ExactString()] = true
+					}
+				}
+				if id, ok := unparen(x.X).(*ast.Ident); ok {
+					// ranged-over local defined from a Split
+					obj := ic.Info.ObjectOf(id)
+					ast.Inspect(fi.Decl.Body, func(m ast.Node) bool {
+						if as, ok := m.(*ast.AssignStmt); ok && len(as.Lhs) == 1 && len(as.Rhs) == 1 {
+							if lid, ok := as.Lhs[0].(*ast.Ident); ok && ic.Info.ObjectOf(lid) == obj {
+								if c, ok := unparen(as.Rhs[0]).(*ast.CallExpr); ok && isCallTo(ic.Info, c, "strings.Split", "strings.SplitN") && len(c.Args) >= 2 {
+									if tv, ok := ic.Info.Types[c.Args[1]]; ok && tv.Value != nil {
+										ranged[tv.Value.ExactString()] = true
+									}
+								}
+							}
+						}
+						return true
+					})
+				}
+			case *ast.CallExpr:
+				if isCallTo(ic.Info, x, "strings.Cut", "strings.Index", "strings.IndexByte") && len(x.Args) == 2 {
+					if tv, ok := ic.Info.Types[x.Args[1]]; ok && tv.Value != nil {
+						cut[tv.Value.ExactString()] = funcName(fi.Decl) + " at " + ic.pos(x.Pos())
+					}
+				}
+			}
+			return true
+		})
+	}
+	for _, sep := range sortedKeys(seps) {
+		key := "constraint-levels/" + strings.Trim(strings.ReplaceAll(sep, "\\n", "newline"), `"`)
+		if sep == `" "` {
+			key = "constraint-levels/space"
+		}
+		why := "no loop over strings.Split(_, " + sep + ") in the constraint evaluator"
+		if c, ok := cut[sep]; ok {
+			why = "the separator " + sep + " is only cut at once (" + c + "), not iterated"
+		}
+		r.Check(ranged[sep], "R17.6", key, "", "every element of the "+seps[sep]+" is evaluated (range over strings.Split)",
+			why+": of the "+seps[sep]+" only the first ones are evaluated, so a constraint with three or more elements at that level is decided on a part of it")
+	}
 	if nTagLoops == 0 {
 		r.Errorf("R17.6: no loop adding to Context.BuildTags found in the constraint evaluator")
 	}
